@@ -153,8 +153,10 @@ size_t SubjectRouter::Node::notify(RoutingLevelView levelView, Args &&...args) {
         if (nextLevel.isRegex()) {
             size_t notifyCount = 0;
 
+            // keep the caller's `Args` (re-deducing them from lvalues would turn
+            // `T` into `T&`) and give every child its own copy of by-value arguments
             for (auto & [name, node] : m_children)
-                notifyCount += node.notify(nextLevel, args...);
+                notifyCount += node.template notify<Args...>(nextLevel, static_cast<Args>(args)...);
 
             return notifyCount;
         } else {
